@@ -2,8 +2,9 @@
 
 Real threads evaluate overlapping queries against one shared cache; a deterministic scheduler (every cache operation of every
 thread is a yield point; exactly one thread runs at a time) replays generated schedules. Correspondence: per-thread outcome, call
-log and canonical cache-operation trace, and the final cache content, vs the Lean model of the same schedule (`conc.run`:
-threads = the oracle evaluator of EvalO.lean, interleaved by Conc.lean). Oracle (implementation only): every thread returns
+log and sequence of own cache operations (get / store / remove), and the final cache content, vs the Lean model replaying the global
+sequence of cache operations the implementation performed (`conc.replay`: threads = the oracle evaluator of EvalO.lean, stepped by
+Conc.lean; the implementation's store_metadata calls are replayed verbatim as environment steps). Oracle (implementation only): every thread returns
 what it returns when run alone without cache, and every data entry left in the cache equals a fresh evaluation of its key.
 """
 import threading, shutil, os
@@ -15,8 +16,8 @@ from common import hx
 RULE = ("2-3 threads evaluating queries that share prefixes or link sub-queries x seeded schedules at cache-operation granularity with up to 3 "
         "(thorough: 5) pre-emptions, on MemoryCache, FileCache and StoreCache(MemoryStore); non-trivial = distinct (queries, schedule) in which "
         "a thread was pre-empted between two of its cache operations")
-TRUSTED = EP.TRUSTED + ["deterministic scheduler: threads blocked on semaphores, one runs at a time, yield point before every get / store / remove of the "
-                        "shared cache; the store_metadata calls after such an operation run with it (as in LiquerModel/Conc.lean stepThread)"]
+TRUSTED = EP.TRUSTED + ["deterministic scheduler: threads blocked on semaphores, one runs at a time, yield point before every operation of the shared cache "
+                        "(get / store / remove = a step of that thread in LiquerModel/Conc.lean, store_metadata = an environment step replayed verbatim)"]
 ASSUMPTIONS = EP.ASSUMPTIONS + ["pre-emption inside one cache operation (between Python byte codes, or between the file operations of a file-backed cache) "
                                 "is not exhibited: each cache operation is atomic in the model"]
 EXPLANATION = "theorems in Props/C12.lean (every cache operation an evaluation issues preserves Sound under any interleaving)"
@@ -34,21 +35,25 @@ class Scheduler:
         self.ids = {}
         self.calls = [[] for _ in range(n)]
         self.ncalls = 0
+        self.glog = []            # (thread, kind, key) of every performed operation
+        self.events = []          # global sequence of performed cache operations: thread index (own operation) | m.<key>.<status>
 
     def tid(self):
         return self.ids.get(threading.get_ident())
 
     def point(self, kind, key, status=None):
-        """called by the cache wrapper before an operation"""
+        """called by the cache wrapper before an operation: every cache operation (progress-metadata writes too) is a yield point"""
         t = self.tid()
         if t is None:
             return
-        tr = self.traces[t]
+        self.main.release()       # reached a yield point
+        self.sems[t].acquire()    # wait to be scheduled
+        self.glog.append((t, kind, key))
         if kind == "M":
-            return                    # progress writes are not pre-emption points: they run with the operation before them
-        self.main.release()
-        self.sems[t].acquire()
-        tr.append("%s:%s" % (kind, hx(key)))
+            self.events.append("m.%s.%s" % (hx(key), hx(status or "")))
+        else:
+            self.events.append(str(t))
+            self.traces[t].append("%s:%s" % (kind, hx(key)))
 
     def trace_text(self, t):
         return ",".join(self.traces[t])
@@ -167,9 +172,24 @@ def run_schedule(task):
             keys |= EP.related_keys(q)
         findings = EP.inspect_cache(inner, keys, defaults)
         solo = [{k: v for k, v in EP.fresh(("E", q), defaults).items() if k != "metadata"} for q in queries]
-        return dict(lines=lines, cache=cache_line, obs=obs, findings=findings, solo=solo)
+        return dict(lines=lines, cache=cache_line, obs=obs, findings=findings, solo=solo, events=list(sched.events), clobber=clobbering_write(sched.glog))
     finally:
         shutil.rmtree(tmp, ignore_errors=True)
+
+
+def clobbering_write(glog):
+    """known finding `progress-write-on-finished-entry`: does some evaluation write progress metadata under a key for which ANOTHER
+    evaluation has meanwhile stored the finished result?  (every cache kind then replaces the finished entry's metadata by the progress
+    record of the late writer while keeping the data) -> (key, writer, owner) | None"""
+    owner = {}
+    for t, kind, key in glog:
+        if kind == "S":
+            owner[key] = t
+        elif kind == "R":
+            owner.pop(key, None)
+        elif kind == "M" and key in owner and owner[key] != t:
+            return [key, t, owner[key]]
+    return None
 
 
 def gen_queries(rng, n):
@@ -195,7 +215,7 @@ def gen_schedule(rng, n, preemptions):
     sched = []
     t = rng.randrange(n)
     for _ in range(rng.randint(0, preemptions) + 1):
-        sched += [t] * rng.randint(1, 9)
+        sched += [t] * rng.randint(1, 24)
         t = rng.choice([x for x in range(n) if x != t])
     return sched
 
@@ -204,9 +224,19 @@ def gen_tasks(ctx, count):
     rng = ctx.rng
     tasks = []
     for i in range(count):
-        n = 3 if (ctx.tier == "thorough" and rng.random() < 0.3) else 2
+        n = 3 if rng.random() < 0.3 else 2
         qs = gen_queries(rng, n)
         tasks.append((i % len(CACHES), qs, gen_schedule(rng, n, 5 if ctx.tier == "thorough" else 3), {} if rng.random() < 0.8 else {"a": "dflt"}))
+    # structured family: three evaluations sharing a prefix; one of them is pre-empted twice and the other two run to completion in the
+    # gaps (the window between a progress write and the store of a shared prefix, with a third evaluation reading in it)
+    big = 400
+    pairs = [(k1, k2) for k1 in range(1, 16) for k2 in range(1, 12)]
+    for ci in range(len(CACHES)):
+        base = H.g_query(rng, 0, rng.randint(1, 2), special=0.0)
+        qs = [base + "/cat-a", base + "/cat-b", base + "/cat-c"]
+        pick = pairs if ctx.tier == "thorough" else rng.sample(pairs, 60 if ci == 0 else 25)
+        for k1, k2 in pick:
+            tasks.append((ci, qs, [1] * k1 + [0] * big + [1] * k2 + [2] * big + [1] * big, {}))
     return tasks
 
 
@@ -222,7 +252,12 @@ def judge(ctx, tasks, results):
             a, b = EP.obs_public(o), EP.obs_public(s)
             if a != b:
                 diff = {k: (a[k], b[k]) for k in a if a[k] != b[k]}
-                key = "rtq-ambiguous-text" if EP.rtq_ambiguous(qs[i]) else "thread-result:%s:%s" % (name, hx(qs[i]))
+                # the known finding: only when the history has the clobbering write AND the symptom is the metadata one (an exception
+                # from the missing metadata keys, or the right value with other metadata) - a wrong VALUE is never excused
+                meta_symptom = (o.get("kind") == "exception" and o.get("exc") == "KeyError") or (
+                    o.get("kind") == "state" and s.get("kind") == "state" and o.get("value") == s.get("value") and o.get("is_error") == s.get("is_error"))
+                key = ("rtq-ambiguous-text" if EP.rtq_ambiguous(qs[i]) else
+                       "progress-write-on-finished-entry" if r.get("clobber") and meta_symptom else "thread-result:%s:%s" % (name, hx(qs[i])))
                 ctx.violation(key, "%s, threads %r under schedule %r: thread %d returns %r, alone it returns %r" % (
                     name, qs, schedule, i, {k: v[0] for k, v in diff.items()}, {k: v[1] for k, v in diff.items()}), case)
         for vkey, text in r["findings"]:
@@ -247,9 +282,13 @@ def run(ctx):
     reqs, impl = [], []
     for (ci, qs, schedule, dflt), r in zip(tasks, results):
         d = ";".join("%s=%s" % (hx(k), vocab.canon(v)) for k, v in dflt.items()) or "-"
-        reqs.append("conc.run %s %s %s %s" % (CACHES[ci][1], d, ",".join(map(str, schedule)) or "-", " ".join(hx(q) for q in qs)))
+        reqs.append("conc.replay %s %s %s %s" % (CACHES[ci][1], d, ",".join(r["events"]) or "-", " ".join(hx(q) for q in qs)))
         impl.append(" | ".join(r["lines"] + [r["cache"]]))
     ans = ctx.driver.ask(reqs)
+    if ans is not None:
+        # runs that contain the clobbering write of the known finding are judged by the oracle only (the model keeps the finished entry)
+        ans = [("UNMODELLED" if r.get("clobber") else a) for a, r in zip(ans, results)]
+        ctx.count("schedules", "with a progress write on a finished entry (known finding: oracle only)", sum(1 for r in results if r.get("clobber")))
     ctx.compare("schedules: per-thread outcome, calls, cache-operation trace, final cache vs Conc model",
                 ["%r %r" % (t[1], t[2]) for t in tasks], impl, None if ans is None else ["UNMODELLED" if "UNMODELLED" in a else a for a in ans])
 
